@@ -229,7 +229,17 @@ impl LayoutSpace {
         let sweep_addrs = vec![None, Some(0), Some(1), Some(2), Some(4), Some(8), Some(16), Some(24)];
         let (sizes, aligns) = if reduced && tier != "thorough" { (vec![0, 1, 4], vec![None, Some(4), Some(8), Some(16)]) } else { ((0..N_SIZE_CHOICES).collect(), align_choices("quick")) };
         blocks.push(Block { k: 1, fields: builtins.clone(), addrs: sweep_addrs, size_sel: sizes.clone(), aligns: aligns.clone() });
-        blocks.push(Block { k: 2, fields: builtins, addrs: vec![None], size_sel: sizes, aligns });
+        blocks.push(Block { k: 2, fields: builtins, addrs: vec![None], size_sel: sizes.clone(), aligns: aligns.clone() });
+        // zero-length arrays, named and unnamed, with and without addresses, next to ordinary fields
+        let zero: Vec<(MTy, bool, bool)> = vec![
+            (MTy::b("u8"), true, false),
+            (MTy::b("u32"), true, false),
+            (MTy::b("u8").arr(0), true, false),
+            (MTy::b("u32").arr(0), true, false),
+            (MTy::Unk(0), false, false),
+        ];
+        blocks.push(Block { k: 2, fields: zero.clone(), addrs: vec![None, Some(4), Some(8), Some(16)], size_sel: sizes.clone(), aligns: aligns.clone() });
+        blocks.push(Block { k: 3, fields: zero, addrs: vec![None, Some(8)], size_sel: vec![0], aligns: vec![None, Some(4)] });
         LayoutSpace { tier: tier.to_string(), with_aux, blocks, env: if with_aux { aux_env() } else { Env::default() } }
     }
     pub fn len(&self) -> usize {
